@@ -10,6 +10,9 @@ use crate::tok::{self, content, len_class, res_bytes, M};
 use crate::Ctx;
 use serde_json::{json, Value};
 
+/// message lengths beyond the dense sweep: around every power of two up to 2^18, and a few odd large ones
+const BIG_LENS: [usize; 30] = [1023, 1024, 1025, 2047, 2048, 2049, 4095, 4096, 4097, 8191, 8192, 8193, 16383, 16384, 16385, 32767, 32768, 32769, 65535, 65536, 65537, 100_000, 131_071, 131_072, 131_073, 200_003, 262_143, 262_144, 262_145, 300_000];
+
 fn spec_local(m: &mut M, ver: &str, key: &[u8], n: &[u8], msg: &[u8], f: &[u8], i: &[u8]) -> Vec<u8> {
     let r = m.eval(&sexp::op("spec_local", vec![sexp::s(ver), sexp::x(key), sexp::x(n), sexp::x(msg), sexp::x(f), sexp::x(i)]));
     r.bytes().to_vec()
@@ -229,10 +232,11 @@ pub fn run(ctx: &Ctx) {
     for (x, y) in [("v3", "v3-aws-lc"), ("v4", "v4-sodium")] {
         let bx = bs.iter().find(|b| b.name == x).unwrap();
         let by = bs.iter().find(|b| b.name == y).unwrap();
-        // every message length 0..=600: identical tokens for identical key and nonce
+        // every message length 0..=600 and large ones around the powers of two (a backend that changes algorithm or
+        // buffering strategy above a size threshold): identical tokens for identical key and nonce
         {
             let key = g.bytes(32);
-            for len in 0..=600usize {
+            for len in (0..=600usize).chain(BIG_LENS.iter().copied()) {
                 rep.evaluations += 1;
                 let n = g.bytes(32);
                 let msg = content(&mut g, len);
@@ -275,7 +279,7 @@ pub fn run(ctx: &Ctx) {
         // inside one backend and shows only across the pair
         if let Some(kp) = kps.first() {
             let step = 1;
-            'sweep: for len in (0..=600usize).step_by(step) {
+            'sweep: for len in (0..=600usize).step_by(step).chain(BIG_LENS.iter().copied()) {
                 let msg = content(&mut g, len);
                 for (signer, verifier) in [(bx, by), (by, bx)] {
                     rep.evaluations += 1;
